@@ -377,20 +377,22 @@ Proof.
       forall P : store * out,
       P = (if nonempty c0 then match find_client cl c0 with
                                | None => (g, match r with Prov => OErr S400 true | Leg => OErr S500 true end)
-                               | Some k => (terminate g user (c_id k), ORedirect)
+                               | Some k => if logout_fails (policy g) (c_id k) then (g, match r with Prov => OErr S400 true | Leg => OErr S500 true end)
+                                           else (terminate g user (c_id k), ORedirect)
                                end
            else (terminate g user "", ORedirect)) ->
       match snd P with ORedirect => fst P = terminate g user c0 | _ => fst P = g end).
     { intros user c0 _ P ->. destruct (nonempty c0) eqn:N.
       - destruct (find_client cl c0) as [k|] eqn:Fk; [|destruct r; reflexivity].
+        destruct (logout_fails (policy g) (c_id k)); [destruct r; reflexivity|].
         cbn. now rewrite (find_client_id _ _ _ Fk).
       - cbn. now rewrite (nonempty_false _ N). }
     destruct hint as [[i s| |i sg e j s z|i|c0 s0]|]; try reflexivity.
     + destruct i, sg; cbn [andb]; try reflexivity.
       destruct (nonempty cid && negb (String.eqb cid z)); [reflexivity|].
-      specialize (F s z (or_intror I) _ eq_refl).
+      specialize (F (ua_user (policy g) s) z (or_intror I) _ eq_refl).
       destruct (if nonempty z then _ else _) as [g' x]. cbn in *. destruct x; cbn; congruence.
-    + specialize (F "" cid (or_intror I) _ eq_refl).
+    + specialize (F (ua_user (policy g) "") cid (or_intror I) _ eq_refl).
       destruct (if nonempty cid then _ else _) as [g' x]. cbn in *. destruct x; cbn; congruence.
   - destruct (exchange cl r (g, nx) c subj styp actor req scopes aud) as [s' x] eqn:E. cbn [fst snd].
     destruct x as [| | | | |i xt rt lv sc sto| |]; try (unfold exchange, client_err_leg in E;
@@ -412,6 +414,36 @@ Ltac leaves E :=
          | context [match ?d with _ => _ end] => destruct d eqn:?; try discriminate
          | context [if ?d then _ else _] => destruct d eqn:?; try discriminate
          end.
+
+Lemma logout_fails_empty pol : logout_fails pol "" = false.
+Proof.
+  unfold logout_fails. destruct (p_session pol); [|reflexivity].
+  unfold nonempty. rewrite String.eqb_sym. now destruct (String.eqb "" (p_nologout pol)).
+Qed.
+
+(* a redirect is only answered where the storage did end the session the request is about *)
+Lemma endsession_redirect_ok cl r g hint cid g' :
+  endsession cl r g hint cid = (g', ORedirect) -> check cl g (EndSession r hint cid) ORedirect = true.
+Proof.
+  assert (F : forall named c0 g2,
+    (if nonempty c0 then match find_client cl c0 with
+                         | None => (g, match r with Prov => OErr S400 true | Leg => OErr S500 true end)
+                         | Some k => if logout_fails (policy g) (c_id k) then (g, match r with Prov => OErr S400 true | Leg => OErr S500 true end)
+                                     else (terminate g (ua_user (policy g) named) (c_id k), ORedirect)
+                         end
+     else (terminate g (ua_user (policy g) named) "", ORedirect)) = (g2, ORedirect) ->
+    logout_fails (policy g) c0 = false).
+  { intros named c0 g2. destruct (nonempty c0) eqn:N.
+    - destruct (find_client cl c0) as [k|] eqn:Fk; [|destruct r; discriminate].
+      rewrite (find_client_id _ _ _ Fk). destruct (logout_fails (policy g) c0); [destruct r; discriminate|reflexivity].
+    - intros _. rewrite (nonempty_false _ N). apply logout_fails_empty. }
+  unfold endsession, check, session_of.
+  destruct hint as [[i s| |i sg e j s z|i|c0 s0]|]; try discriminate.
+  - destruct i, sg; cbn [andb]; try discriminate.
+    destruct (nonempty cid && negb (String.eqb cid z)); [discriminate|].
+    intro H. now rewrite (F _ _ _ H).
+  - intro H. now rewrite (F _ _ _ H).
+Qed.
 
 Lemma check_step cl s o : op_unconfused o = true -> check cl (fst s) o (snd (step cl s o)) = true.
 Proof.
@@ -442,7 +474,8 @@ Proof.
       { destruct (proper cl c) eqn:P; [|reflexivity]. exfalso. now apply (proper_auth_revoke cl r c P). }
       fold (revoke_err cl r c). destruct (revoke_err_shape cl r c) as [st ->]. cbn. rewrite P. apply orb_true_r.
   - destruct (endsession cl r g hint cid) as [g' x] eqn:E. cbn [snd].
-    unfold endsession in E. leaves E; injection E as <- <-; reflexivity.
+    destruct x; try (unfold endsession in E; leaves E; discriminate); [|reflexivity].
+    exact (endsession_redirect_ok _ _ _ _ _ _ E).
   - destruct (exchange cl r (g, nx) c subj styp actor req scopes aud) as [s' x] eqn:E. cbn [fst snd].
     destruct x as [| | | | |i xt rt lv sc sto|st b|]; try (exfalso; unfold exchange, client_err_leg in E; leaves E; discriminate).
     + apply exchange_ok_inv in E as (k & id & ssub & _ & RS & LS & _ & _ & AC). cbn [fst] in *.
@@ -474,7 +507,7 @@ Proof. intros [cl pol ops] U. exact (spec_run_model cl (located ops) (init pol) 
 (* Known finding Fxx-C08-1: a revoked JWT access token, declared as id_token, is accepted as
    exchange subject (the faithful model of the code says so). *)
 Definition refuting_clients := [Client "web" "web-secret" AMBasic false false true true; Client "web2" "web2-secret" AMPost true false true true].
-Definition refstore_policy := TEPolicy true None None false false.
+Definition refstore_policy := TEPolicy true None None false false None ActDefault "".
 Definition refuting_history :=
   Hist refuting_clients refstore_policy
     [(0, true, Issue Prov "web2" "bob" ["openid"]);
@@ -749,7 +782,7 @@ Qed.
    session found in a later state was minted after the logout *)
 Lemma logout_effective cl pol pre r hint cid post u k n tr :
   let s0 := state_after cl (init pol) pre in
-  snd (step cl s0 (EndSession r hint cid)) = ORedirect -> session_of hint cid = Some (u, k) ->
+  snd (step cl s0 (EndSession r hint cid)) = ORedirect -> session_of (policy (fst s0)) hint cid = Some (u, k) ->
   find_tok n (toks (fst (state_after cl (init pol) (pre ++ EndSession r hint cid :: post)))) = Some tr ->
   tr_client tr = k -> tr_sub tr = u -> snd s0 < n.
 Proof.
@@ -776,4 +809,71 @@ Proof.
         Revoke Prov (Post "web2" "web2-secret") (Jwt true true false (AT 2) "bob" "") false]),
     Prov, (Basic "web" "web-secret"), (Jwt true true false (AT 2) "bob" ""), TId, None, TAccess, ["openid"], ["web"].
   split; [|vm_compute; reflexivity]. vm_compute. repeat eexists.
+Qed.
+
+(* ---------------------------------------------------------------- round 7: the storage policy is constant; logout without a hint *)
+
+Ltac split_goal := repeat match goal with
+  | |- context [match ?d with _ => _ end] => destruct d
+  | |- context [if ?d then _ else _] => destruct d
+  end.
+
+Lemma revoke_token_policy g id caller g' : revoke_token g id caller = Some g' -> policy g' = policy g.
+Proof.
+  unfold revoke_token. destruct id as [n|m| |]; try (now intros [= <-]).
+  - destruct (find_tok n (toks g)) as [t|]; [|now intros [= <-]].
+    destruct (String.eqb (tr_client t) caller); [now intros [= <-]|discriminate].
+  - destruct (find_rt m (rtoks g)) as [x|]; [|now intros [= <-]].
+    destruct (String.eqb (r_client x) caller); [now intros [= <-]|discriminate].
+Qed.
+
+Lemma step_policy cl s o : policy (fst (fst (step cl s o))) = policy (fst s).
+Proof.
+  destruct s as [g nx].
+  destruct o as [r cid sub scopes|r t|r c t|r c t h|r hint cid|r c subj styp actor req scopes aud]; cbn [step fst snd].
+  - unfold issue. split_goal; reflexivity.
+  - reflexivity.
+  - reflexivity.
+  - destruct (revoke cl r g c t h) as [g' x] eqn:E. cbn [fst].
+    unfold revoke in E.
+    destruct (match r with Prov => auth_revoke_prov cl c | Leg => _ end) as [caller|]; [|now injection E as <- _].
+    destruct (revoke_token g (revoke_target g t h) caller) as [g2|] eqn:RT; injection E as <- _; [|reflexivity].
+    exact (revoke_token_policy _ _ _ _ RT).
+  - destruct (endsession cl r g hint cid) as [g' x] eqn:E. cbn [fst].
+    unfold endsession in E. leaves E; injection E as <- _; reflexivity.
+  - destruct (exchange cl r (g, nx) c subj styp actor req scopes aud) as [[g' nx'] x] eqn:E. cbn [fst].
+    unfold exchange in E. leaves E; injection E as <- _ _; reflexivity.
+Qed.
+
+Lemma state_after_policy cl ops : forall s, policy (fst (state_after cl s ops)) = policy (fst s).
+Proof.
+  induction ops as [|o ops IH]; intro s; cbn [state_after]; [reflexivity|]. now rewrite IH, step_policy.
+Qed.
+
+(* end_session WITHOUT id_token_hint, on a provider whose storage finds the end user in the request
+   (CanTerminateSessionFromRequest; the user agent's session belongs to u): once it answered 302,
+   every token of (u, client_id) found in a later state was minted after the logout - on both routers *)
+Lemma logout_without_hint_effective cl pol pre r cid post u n tr :
+  p_session pol = Some u ->
+  let s0 := state_after cl (init pol) pre in
+  snd (step cl s0 (EndSession r None cid)) = ORedirect ->
+  find_tok n (toks (fst (state_after cl (init pol) (pre ++ EndSession r None cid :: post)))) = Some tr ->
+  tr_client tr = cid -> tr_sub tr = u -> snd s0 < n.
+Proof.
+  intros PS s0 OK F CK CU.
+  apply (logout_effective cl pol pre r None cid post u cid n tr OK); auto.
+  unfold s0. rewrite state_after_policy. cbn. unfold ua_user. now rewrite PS.
+Qed.
+
+(* where the storage cannot end the session a request is about, no logout is reported and nothing changes *)
+Lemma failed_logout_not_reported cl r g hint cid g' x u c :
+  endsession cl r g hint cid = (g', x) -> session_of (policy g) hint cid = Some (u, c) ->
+  logout_fails (policy g) c = true -> x <> ORedirect /\ g' = g.
+Proof.
+  intros E S L.
+  assert (NR : x <> ORedirect).
+  { intros ->. apply endsession_redirect_ok in E. unfold check in E. rewrite S, L in E. discriminate. }
+  split; [exact NR|].
+  pose proof (gstep_step cl (g, 0) (EndSession r hint cid)) as G. cbn [step fst snd] in G. rewrite E in G. cbn [fst snd] in G.
+  rewrite <- G. destruct x; try reflexivity. now elim NR.
 Qed.
